@@ -334,6 +334,9 @@ def main():
         ("A-installed+backup-of-A,service-inactive", State(("A",) * 4, ("A",) * 4, "B", "inactive")),
         # the installed configuration file is empty
         ("A-installed-with-an-empty-configuration-file", State(("A", "E", "A", "A"), (None,) * 4, "B", "active")),
+        # a version installed without one of its files (older layout / removed by the administrator)
+        ("A-installed-without-its-configuration-file", State(("A", None, "A", "A"), (None,) * 4, "B", "active")),
+        ("A-installed-without-its-eBPF-object", State(("A", "A", None, "A"), (None,) * 4, "B", "active")),
     ]
     replay = os.environ.get("VERIF_REPLAY")
     only = None
@@ -344,6 +347,7 @@ def main():
     states_seen = set()
     samples = []
     headline = 0
+    headline_partial = 0
     trace_audits = 0
 
     def step(s, cmd, history):
@@ -438,7 +442,8 @@ def main():
                     if len(samples) < 4:
                         samples.append({"initial": iname, "commands": hist + [cmd], "state": {"system": obs.sys, "backup": obs.backup, "service": obs.svc}})
             # headline from every reachable state with a complete installation: backup; install the other version; restore
-            if all(v in ("A", "B", "E") for v in s.sys) and not only:
+            # (from an installation that lacks some of the files - e.g. after "uninstall service" - the files that were there)
+            if s.sys[0] in ("A", "B") and all(v in ("A", "B", "E", None) for v in s.sys) and not only:
                 other = "B" if s.sys[0] == "A" else "A"
                 cur = s
                 ok = True
@@ -453,7 +458,13 @@ def main():
                         # content that is no version of the file: cannot be materialised again; judged right here
                         break
                 headline += 1
-                if ok and cur.sys != s.sys:
+                complete = all(v is not None for v in s.sys)
+                if ok and not complete:
+                    headline_partial += 1
+                    if any(s.sys[i] is not None and cur.sys[i] != s.sys[i] for i in range(4)):
+                        violation("upgrade-not-reversible:installation-lacking-a-file", "backup; install %s; restore from system %s ended with system %s: a file that was there before the upgrade is not what it was (order: exe, config, ebpf, unit)" % (other, s.sys, cur.sys),
+                                  {"initial": iname, "commands": hist + ["backup", "install-" + other, "restore"]})
+                elif ok and cur.sys != s.sys:
                     violation("upgrade-not-reversible", "backup; install %s; restore from system %s ended with system %s" % (other, s.sys, cur.sys),
                               {"initial": iname, "commands": hist + ["backup", "install-" + other, "restore"]})
         states_seen |= seen
@@ -461,8 +472,8 @@ def main():
     res["violations"] = list(viol.values())
     res["coverage"] = {
         "states": len(states_seen), "transitions": transitions, "traces_validated_against_impl": transitions,
-        "headline_round_trips": headline, "strace_write_set_audits": trace_audits, "depth_bound": depth, "exhaustive": True,
-        "rule": "BFS to depth %d over {backup, install (package A or B beside the tool), restore, uninstall service, uninstall package, purge} from 8 initial states (incl. one with an empty configuration file) (nothing installed; A installed; A + backup of A; A + stale backup of B; A (+ backup) with the service crash-looping ('activating'); A + backup with the service stopped), deduplicated on the canonical file tree (version of each of the four system files and four backup files) and the service's run state; every transition runs the real release build of proxy_agent_setup on a freshly materialised tree with a recording, stateful systemctl stand-in (run state active / activating / inactive; is-active, stop, start, enable, disable answer and fail as documented for systemctl, e.g. disable of a unit without unit file exits 1); install and restore are judged on 'no system file changes while the service is not stopped' and 'started afterwards, after the last file' from the fingerprints the stand-in takes at every call (query verbs are not judged); from every reachable complete installation the round trip backup, install other version, restore is executed; the two versions of the executable and of the unit have equal length, the configuration grows and the eBPF object shrinks from A to B; realistic mtimes (package < backup < installed)" % depth,
+        "headline_round_trips": headline, "headline_round_trips_from_installations_lacking_a_file": headline_partial, "strace_write_set_audits": trace_audits, "depth_bound": depth, "exhaustive": True,
+        "rule": "BFS to depth %d over {backup, install (package A or B beside the tool), restore, uninstall service, uninstall package, purge} from 10 initial states (incl. one with an empty configuration file, one without configuration file, one without eBPF object) (nothing installed; A installed; A + backup of A; A + stale backup of B; A (+ backup) with the service crash-looping ('activating'); A + backup with the service stopped), deduplicated on the canonical file tree (version of each of the four system files and four backup files) and the service's run state; every transition runs the real release build of proxy_agent_setup on a freshly materialised tree with a recording, stateful systemctl stand-in (run state active / activating / inactive; is-active, stop, start, enable, disable answer and fail as documented for systemctl, e.g. disable of a unit without unit file exits 1); install and restore are judged on 'no system file changes while the service is not stopped' and 'started afterwards, after the last file' from the fingerprints the stand-in takes at every call (query verbs are not judged); from every reachable installation the round trip backup, install other version, restore is executed (complete installation: all four files as before; installation lacking a file, e.g. after 'uninstall service': the files that were there as before); the two versions of the executable and of the unit have equal length, the configuration grows and the eBPF object shrinks from A to B; realistic mtimes (package < backup < installed)" % depth,
         "samples": samples,
     }
     res["assumptions"] = ["restore always deletes the backup: the release CLI accepts no value for delete_backup",
